@@ -310,6 +310,23 @@ func checkFresh(c *Ctx) {
 					c.ok("FRESH-node-write", key, l.ipos(st), "exception: "+why)
 					return
 				}
+				// the legacy-root re-save clears isLegacy on the `isLegacy` edge of the same node, wherever that code lives
+				if fv.Name() == "isLegacy" {
+					if k, isC := stripTrivial(st.Val).(*ssa.Const); isC && k.Value != nil && k.Value.String() == "false" {
+						for _, b := range fn.Blocks {
+							iff := ifOf(b)
+							if iff == nil {
+								continue
+							}
+							if ld, isLd := stripTrivial(iff.Cond).(*ssa.UnOp); isLd {
+								if fa2, isFA := ld.X.(*ssa.FieldAddr); isFA && fieldVar(fa2.X.Type(), fa2.Field) == fv && edgeDominates(b, 0, st.Block()) {
+									c.ok("FRESH-node-write", key, l.ipos(st), "exception: "+freshExceptions["(*iavl.MutableTree).SaveVersion isLegacy"])
+									return
+								}
+							}
+						}
+					}
+				}
 				c.bad("FRESH-node-write", key, l.ipos(st), "store into a node that may be persisted and shared with concurrent readers through the node cache (base `"+roleOf(l, base, "", 0)+"` is not provably fresh)")
 			}
 		})
